@@ -722,7 +722,11 @@ pub fn run_hist(view: View, hist: &[Ev]) -> Result<(M, Vec<Ev>), String> {
                 expect = got.clone();
             }
             let got = if expect == "Any" && got != "Pending" { "Any".to_string() } else { got };
-            if got != expect {
+            // The property asks for *an* error on an invalid request, not for a particular variant: error
+            // classes are compared as "an error", except the status a shard reports back in a mismatch
+            // (the leader computes the combined status from it).
+            let coarse_class = |x: &str| -> String { if x.starts_with("Err:") && !x.starts_with("Err:DifferentStatus") { "Err".to_string() } else { x.to_string() } };
+            if coarse_class(&got) != coarse_class(&expect) {
                 return Err(format!("step {} {ev:?}: the helper answered {got}, the lifecycle model says {expect} (model state after: {m:?})", i + 1));
             }
             // stored status: equal to the model's up to the lazy Running -> Completed promotion
